@@ -11,6 +11,7 @@ def run_hist(pid, tier, seed, mon, n_quick, n_thorough, rule, assumptions, batch
     batch = batch_thorough if thorough else batch_quick
     cases, sums, notes = core.run_sharded(exe, "hist", seed, tier, nsh, extra={"mon": mon, "n": n, "batch": batch}, timeout=3000)
     r.add_cases(cases, "native")
+    core.also_librel(r, tier, False, lambda exe2: core.run_sharded(exe2, "hist", seed, tier, nsh, extra={"mon": mon, "n": n, "batch": batch}, timeout=3000))
     r.notes += notes
     obs = core.sum_dicts(sums)
     r.observe("native", obs)
@@ -24,7 +25,7 @@ def run_hist(pid, tier, seed, mon, n_quick, n_thorough, rule, assumptions, batch
 def replay_hist(path, mon):
     import subprocess
     rp = core.load_replay(path)
-    exe = core.build_native()
+    exe = core.build_native(libopt="librel" in str(rp.get("engine", "")))
     a = rp.get("args", {})
     cmd = [exe, "hist", "--seed", str(rp["seed"]), "--tier", rp["tier"], "--only", str(rp["case_index"]), "--mon", mon, "--n", str(a.get("n", 1 << 40)), "--batch", str(a.get("batch", 1))]
     p = subprocess.run(cmd, stdout=subprocess.PIPE, text=True)
